@@ -63,11 +63,15 @@ type k20Step struct {
 	timer   bool
 	from    hotstuff.ID   // claimed sender of the contribution
 	signers []hotstuff.ID // distinct genuine signers of the contribution
+	other   bool          // the signers signed the OTHER block of the same view (an equivocating proposer)
 }
 
 func (st k20Step) String() string {
 	if st.timer {
 		return "wait-timer"
+	}
+	if st.other {
+		return fmt.Sprintf("contribution from %d signed by %v over the other block of the view", st.from, st.signers)
 	}
 	return fmt.Sprintf("contribution from %d signed by %v", st.from, st.signers)
 }
@@ -81,11 +85,13 @@ type k20World struct {
 	block  *hotstuff.Block
 	logger logging.Logger
 	sigs   map[hotstuff.ID]hotstuff.QuorumSignature // every replica's genuine vote for the block
+	block2 *hotstuff.Block                          // a different block of the same view
+	sigs2  map[hotstuff.ID]hotstuff.QuorumSignature // every replica's genuine vote for that other block
 }
 
 func k20NewWorld(v *verifOut, n int, scheme string) *k20World {
 	w := &k20World{v: v, n: n, scheme: scheme, keys: map[hotstuff.ID]hotstuff.PrivateKey{}, bases: map[hotstuff.ID]crypto.Base{},
-		sigs: map[hotstuff.ID]hotstuff.QuorumSignature{}, logger: logging.NewWithDest(io.Discard, "k20")}
+		sigs: map[hotstuff.ID]hotstuff.QuorumSignature{}, sigs2: map[hotstuff.ID]hotstuff.QuorumSignature{}, logger: logging.NewWithDest(io.Discard, "k20")}
 	for i := 1; i <= n; i++ {
 		var key hotstuff.PrivateKey
 		if scheme == crypto.NameEDDSA {
@@ -105,6 +111,7 @@ func k20NewWorld(v *verifOut, n int, scheme string) *k20World {
 	}
 	g := hotstuff.GetGenesis()
 	w.block = hotstuff.NewBlock(g.Hash(), hotstuff.NewQuorumCert(nil, 0, g.Hash()), &clientpb.Batch{Commands: []*clientpb.Command{{Data: []byte("k20")}}}, 5, 1)
+	w.block2 = hotstuff.NewBlock(g.Hash(), hotstuff.NewQuorumCert(nil, 0, g.Hash()), &clientpb.Batch{Commands: []*clientpb.Command{{Data: []byte("k20-other")}}}, 5, 1)
 	for i := 1; i <= n; i++ {
 		id := hotstuff.ID(i)
 		b, err := crypto.New(w.config(id, n), scheme)
@@ -117,6 +124,11 @@ func k20NewWorld(v *verifOut, n int, scheme string) *k20World {
 			panic(err)
 		}
 		w.sigs[id] = s
+		s2, err := b.Sign(w.block2.ToBytes())
+		if err != nil {
+			panic(err)
+		}
+		w.sigs2[id] = s2
 	}
 	return w
 }
@@ -131,13 +143,17 @@ func (w *k20World) config(id hotstuff.ID, members int, opts ...core.RuntimeOptio
 }
 
 // aggregate of the genuine votes of the given replicas (as a child would hand it up)
-func (w *k20World) aggregate(ids []hotstuff.ID) hotstuff.QuorumSignature {
+func (w *k20World) aggregate(ids []hotstuff.ID, other bool) hotstuff.QuorumSignature {
+	sigs := w.sigs
+	if other {
+		sigs = w.sigs2
+	}
 	if len(ids) == 1 {
-		return w.sigs[ids[0]]
+		return sigs[ids[0]]
 	}
 	parts := make([]hotstuff.QuorumSignature, len(ids))
 	for i, id := range ids {
-		parts[i] = w.sigs[id]
+		parts[i] = sigs[id]
 	}
 	s, err := w.bases[ids[0]].Combine(parts...)
 	if err != nil {
@@ -161,6 +177,7 @@ func (w *k20World) run(s *verifStream, shape string, bf int, positions []hotstuf
 	el := eventloop.New(w.logger, 1000)
 	bc := blockchain.New(el, w.logger, sender)
 	bc.Store(w.block)
+	bc.Store(w.block2)
 	base, err := crypto.New(cfg, w.scheme)
 	if err != nil {
 		panic(err)
@@ -264,7 +281,7 @@ func (w *k20World) run(s *verifStream, shape string, bf int, positions []hotstuf
 			}
 			continue
 		}
-		c := &kauripb.Contribution{ID: uint32(st.from), View: uint64(w.block.View()), Signature: hotstuffpb.QuorumSignatureToProto(w.aggregate(st.signers))}
+		c := &kauripb.Contribution{ID: uint32(st.from), View: uint64(w.block.View()), Signature: hotstuffpb.QuorumSignatureToProto(w.aggregate(st.signers, st.other))}
 		el.AddEvent(c)
 		drain()
 		overlap := false
@@ -274,6 +291,8 @@ func (w *k20World) run(s *verifStream, shape string, bf int, positions []hotstuf
 			}
 		}
 		switch {
+		case st.other: // votes for another block of the view are not votes for this one: refused, nothing changes
+			observe(st.String()+" (refused)", len(agg) < q, false)
 		case overlap: // refused: nothing changes
 			observe(st.String()+" (overlaps: refused)", len(agg) < q, false)
 		case empty: // first contribution after the timer: adopted as it is, without a threshold test
@@ -376,6 +395,42 @@ func TestVerifC20(t *testing.T) {
 					runs++
 					w.run(s, shape, bf, positions, n0s[runs%len(n0s)], script)
 				}
+				// (a2) an equivocating proposer: s of the other replicas voted for the OTHER block of the same view and their
+				// contributions arrive too (first, or alternating with the real ones); only votes for the root's block count
+				if shape == "root-first" && bf == 2 {
+					for split := 1; split < n; split++ {
+						for _, alternate := range []bool{false, true} {
+							var others, reals []k20Step
+							for i := 1; i < n; i++ {
+								id := positions[i]
+								if i <= split {
+									others = append(others, k20Step{from: id, signers: []hotstuff.ID{id}, other: true})
+								} else {
+									reals = append(reals, k20Step{from: id, signers: []hotstuff.ID{id}})
+								}
+							}
+							var script []k20Step
+							if alternate {
+								for j := 0; j < len(others) || j < len(reals); j++ {
+									if j < len(reals) {
+										script = append(script, reals[j])
+									}
+									if j < len(others) {
+										script = append(script, others[j])
+									}
+								}
+							} else {
+								script = append(append(script, others...), reals...)
+							}
+							// the same replicas then also vote for the root's block (their earlier votes must not have been counted)
+							for _, o := range others {
+								script = append(script, k20Step{from: o.from, signers: o.signers})
+							}
+							runs++
+							w.run(s, shape, bf, positions, n0s[runs%len(n0s)], script)
+						}
+					}
+				}
 				// (b) whole-subtree aggregates from the root's children: every combination of complete, partial
 				// (the child alone: its own subtree crashed) and silent (crashed) subtrees, both orders, the wait
 				// timer at every point, and stragglers of a partial subtree arriving one by one after it
@@ -434,7 +489,7 @@ func TestVerifC20(t *testing.T) {
 		}
 	}
 	v.CountN("kauri:rounds", runs)
-	v.Close("Kauri root: one evaluation = one stimulus of a round at the root of a tree of n = 4..13 replicas (own vote, a contribution, the wait timer) with k distinct genuine signers aggregated; kernel cases (n, k, emitted) where emitted <-> k >= QuorumSize(n) is required: merges onto a non-empty aggregate, and every stimulus that leaves the aggregate below the quorum; exempt: non-merging stimuli at or above the quorum (the QC is not repeated) and the first contribution after the wait timer (adopted without a threshold test: the round was given up); non-trivial = k >= 2")
+	v.Close("Kauri root: one evaluation = one stimulus of a round at the root of a tree of n = 4..13 replicas (own vote, a contribution, the wait timer) with k distinct genuine signers aggregated; kernel cases (n, k, emitted) where emitted <-> k >= QuorumSize(n) is required: merges onto a non-empty aggregate, and every stimulus that leaves the aggregate below the quorum; exempt: non-merging stimuli at or above the quorum (the QC is not repeated) and the first contribution after the wait timer (adopted without a threshold test: the round was given up); contributions signed over another block of the same view (equivocation) are refused and never counted; non-trivial = k >= 2")
 	if len(v.fails) > 0 {
 		t.Logf("oracle failures: %d", len(v.fails))
 	}
